@@ -51,3 +51,51 @@ Proof.
       eapply xw_stop; [reflexivity | constructor].
   - reflexivity.
 Qed.
+
+(* ---- Part 2: the hypothesis above ("A's graph is the subgraph induced by A's types") is no longer a
+   hypothesis: for ANY relation table with the table facts and ANY two closed lists of types A <= B
+   (in any supply orders, any set iteration orders), the GENERATED constructor builds both typesets and
+   the ACTUAL graphs refine - the full relation graphs (infer) and, when A has at least two types, the
+   identity graphs (detect).  [succ_of X g] is the successor enumeration the generated traversal uses
+   (bridge/Engine_bridge.v: traverse_graph_with_series = walk (succ_of X g)). *)
+From Coq Require Import Permutation.
+From V Require Import NxModel NxFacts Engine_gen Engine_bridge GraphWF AlgebraTheory GraphRefine Shipped_gen ShippedFacts ShippedGraph.
+
+Theorem C15_constructed_typesets_refine :
+  forall (T D St L F : Type) (X : ctx T D St L F) (rk : T -> nat), table_ok X rk ->
+  forall typesA typesB w,
+    closed X typesA -> closed X typesB -> (forall t, In t typesA -> In t typesB) ->
+    exists tsA tsB wA wB,
+      VT_init X (VT_blank X) typesA w = Ok (tt, tsA, wA) /\
+      VT_init X (VT_blank X) typesB w = Ok (tt, tsB, wB) /\
+      refines X (relation_graph tsA) (relation_graph tsB) typesA /\
+      ((exists x, In x typesA /\ x <> Generic X) -> refines X (base_graph tsA) (base_graph tsB) typesA).
+Proof. intros T D St L F X rk H. exact (constructed_typesets_refine X rk H). Qed.
+Print Assumptions C15_constructed_typesets_refine.
+
+(* [refines] is exactly the conclusion of C15_refinement, for the actual graphs *)
+Theorem C15_refines_unfolded :
+  forall (T D St L F : Type) (X : ctx T D St L F) (gA gB : graph T D St) (typesA : list T),
+    refines X gA gB typesA <->
+    (forall t d st path dB pB stB,
+      xwalks (succ_of X gB) t d st path (dB, pB, stB) -> In t typesA ->
+      exists dA pA stA,
+        xwalks (succ_of X gA) t d st path (dA, pA, stA) /\
+        is_prefix pA pB /\
+        (pA = pB /\ dA = dB \/ exists next, is_prefix (pA ++ [next]) pB /\ ~ In next typesA)).
+Proof. intros. reflexivity. Qed.
+
+(* the shipped table (regenerated on this run) satisfies the hypotheses; StandardSet <= GeometrySet <= CompleteSet are instances *)
+Theorem C15_shipped_instances :
+  forall (si : list ty -> list ty) (rnd : list ty -> list (ty * ty * option style) -> Z),
+    (forall l, NoDup l -> Permutation (si l) l) ->
+    let X := shipped_ctx_with si rnd in
+    table_ok X rk /\ closed X standard_set /\ closed X geometry_set /\ closed X complete_set /\
+    (forall t, In t standard_set -> In t geometry_set) /\ (forall t, In t geometry_set -> In t complete_set).
+Proof.
+  intros si rnd Hsi X. split; [exact (shipped_table_ok si rnd Hsi)|].
+  split; [apply shipped_closed; vm_compute; tauto|]. split; [apply shipped_closed; vm_compute; tauto|].
+  split; [apply shipped_closed; vm_compute; tauto|].
+  split; intros t Ht; vm_compute in Ht |- *; tauto.
+Qed.
+Print Assumptions C15_shipped_instances.
